@@ -303,7 +303,7 @@ __epoch_to_inst(time_t t)
 	ti.M = s % 60U, s /= 60U;
 	ti.H = s;
 	/* unix epoch has second resolution */
-	ti.ms = ECHS_ALL_DAY;
+	ti.ms = ECHS_ALL_SEC;
 	return ti;
 }
 
